@@ -173,4 +173,17 @@ def assumedFresh : List String :=
   ["projectedValues.values", "NamesSlice.minus", "NamesSlice.intersect", "NamesSlice.GetSorted",
    "valueProjector.compose", "Relation.getIndices", "Relation.tupleToValues", "asString", "asBytes", "asArray"]
 
+/-- "copy constructors" of rel/: functions that derive a value by copying an existing struct value and re-assigning some
+fields — (type, function, fields assigned, REFERENCE fields (pointer / map / slice / func / chan / sync.*) left shared with the
+original).  A shared reference is harmless only if nothing is ever written through it after construction:
+`Array.Shift` shares `values` (never written: C03_history); `Relation.newBody` shares `attrs`, `p` (read only: Rel.lean) and
+`attrMap` (filled once in `newRelation`, read only afterwards).  A lazily filled memo added to such a struct (e.g. a
+`canon *canonicalRows` behind a sync.Once) shows up here as a new shared field of `newBody` and must be reset there. -/
+def copyCtors : List (String × String × String × String) := [
+  ("Array", "Array.Shift", "offset", "values:slice"),
+  ("Array", "Array.clone", "values", ""),
+  ("Array", "Array.withItem", "count,offset,values", ""),
+  ("Relation", "Relation.newBody", "rows", "attrMap:map,attrs:slice,p:slice")
+]
+
 end Arrai.C03.Expected
